@@ -40,6 +40,18 @@ const (
 var c10Protos = []int{0, 1, 2, 3, 4, 5, 6, 7, 8, 9, 10, 11}
 var c10U32 = []uint32{0, 1, 2, 3, 255, 256, 4095, 4096, 4097, 65535, 65536, 1 << 31, 1<<32 - 2, 1<<32 - 1}
 
+// c10RandSeq draws a literal sequence number. On the stream transport a data segment must carry exactly
+// the number its session expects (a small number that also depends on how many probes the executor has
+// sent), so literal numbers are kept away from that range: 0 (always already used by the open segment)
+// or >= 1000. The in-sequence case is SeqSel == "next".
+func c10RandSeq(r *rand.Rand, udp bool) uint32 {
+	v := c10RandU32(r)
+	if !udp && v >= 1 && v < 1000 {
+		v += 1000
+	}
+	return v
+}
+
 func c10RandU32(r *rand.Rand) uint32 {
 	if r.Intn(3) == 0 {
 		return r.Uint32()
@@ -77,7 +89,7 @@ func genC10Plain(r *rand.Rand, role string, udp bool) c10Seg {
 	if r.Intn(10) < 6 {
 		s.SeqSel = "next"
 	} else {
-		s.Seq = c10RandU32(r)
+		s.Seq = c10RandSeq(r, udp)
 	}
 	s.UnAck = []uint32{0, 1, 2, 5}[r.Intn(4)]
 	s.Window = uint16(16 + r.Intn(4000))
@@ -154,7 +166,7 @@ func genC10Seg(r *rand.Rand, role string, udp bool, prevKind string) c10Seg {
 	if r.Intn(3) == 0 {
 		s.SeqSel = "next"
 	} else {
-		s.Seq = c10RandU32(r)
+		s.Seq = c10RandSeq(r, udp)
 	}
 	s.UnAck = c10RandU32(r)
 	s.Window = uint16(c10RandU32(r))
@@ -277,6 +289,17 @@ func (k *c10Case) modelSid(s *c10Seg) uint32 {
 	return s.Sid
 }
 
+// peerHasSession: is the selector one of the sessions opened in the set-up of this case?
+func (k *c10Case) peerHasSession(sel string) bool {
+	switch sel {
+	case "own1":
+		return k.Role == "client" || k.Setup >= 1
+	case "own2":
+		return k.Role == "client" || k.Setup >= 2
+	}
+	return false
+}
+
 func b01(b bool) int {
 	if b {
 		return 1
@@ -288,7 +311,7 @@ func b01(b bool) int {
 // how many leading steps are setup.
 func (k *c10Case) modelSteps() (steps []string, nSetup int) {
 	valid := func(proto int, sid uint32, key string, src int) string {
-		return fmt.Sprintf("%d,1,%d,0,0,0,0,0,0,0,0,0,1,1,%d,1,72,%s,0", proto, sid, src, key)
+		return fmt.Sprintf("%d,1,%d,0,0,0,0,0,0,0,0,0,1,1,%d,1,72,%s,0,0", proto, sid, src, key) // sequence number 0: the first segment of a session
 	}
 	if k.Role == "server" {
 		ids := []uint32{k.Own1, k.Own2}[:k.Setup]
@@ -309,11 +332,11 @@ func (k *c10Case) modelSteps() (steps []string, nSetup int) {
 			if s.From == "fresh" {
 				src = 2
 			}
-			line = fmt.Sprintf("0,1,0,0,0,0,0,0,0,0,%d,0,1,0,%d,1,%d,-,0", s.Len, src, s.Len)
+			line = fmt.Sprintf("0,1,0,0,0,0,0,0,0,0,%d,0,1,0,%d,1,%d,-,0,0", s.Len, src, s.Len)
 		case "replay":
 			line = prev
 			f := strings.Split(prev, ",")
-			if len(f) == 19 {
+			if len(f) == 20 {
 				if k.UDP {
 					f[18] = "1" // the replay cache has seen these bytes
 				} else {
@@ -332,9 +355,16 @@ func (k *c10Case) modelSteps() (steps []string, nSetup int) {
 				key = "-" // the client holds one key; anything else does not authenticate
 			}
 			ts := s.TsSkew >= -1 && s.TsSkew <= 1
-			line = fmt.Sprintf("%d,%d,%d,%d,%d,%d,%d,%d,%d,%d,%d,%d,%d,%d,%d,1,%d,%s,0",
+			// "next" means the number the executor's wire-level peer has for that session, i.e. the one the
+			// real session expects — but only for sessions the peer itself opened in the set-up; for any
+			// other id the executor sends the literal number
+			seq := fmt.Sprint(s.Seq)
+			if s.SeqSel == "next" && k.peerHasSession(s.SidSel) {
+				seq = "n"
+			}
+			line = fmt.Sprintf("%d,%d,%d,%d,%d,%d,%d,%d,%d,%d,%d,%d,%d,%d,%d,1,%d,%s,0,%s",
 				s.Proto, b01(ts), k.modelSid(s), l.declPre, l.declPay, l.declSuf, s.Byte1, s.LEMask, s.LERot, l.extLen,
-				l.tailLen, b01(l.auth), b01(l.leBodyOk), b01(l.framed), src, 72+l.tailLen, key)
+				l.tailLen, b01(l.auth), b01(l.leBodyOk), b01(l.framed), src, 72+l.tailLen, key, seq)
 		}
 		prev = line
 		steps = append(steps, line)
@@ -614,6 +644,14 @@ func c10Judge(c *core.Ctx, k c10Case, pred c10Prediction, nSetup int, res c10Res
 		if s.Kind == "seg" {
 			c.Hist("proto", fmt.Sprint(s.Proto))
 			c.Hist("sid_sel", s.SidSel)
+			if c10IsData(s.Proto) || s.Proto == 2 || s.Proto == 3 {
+				// in-sequence ("next") and out-of-sequence (literal) segments for inputData, per transport
+				tr := "tcp"
+				if k.UDP {
+					tr = "udp"
+				}
+				c.Hist("seq_"+tr, s.SeqSel+"->"+mo)
+			}
 		}
 		if o.Skipped {
 			c.Disagree(key("underlay-closed-early", s), fmt.Sprintf("step %d was not executed: the connection was already closed, the model (%s) says it was still up", i, pred.Raw), k)
@@ -767,6 +805,9 @@ func c10Prepare(c *core.Ctx, k c10Case) (c10Job, bool) {
 			if rp {
 				k.Steps[i].Expect = "drop+reply"
 			}
+			if mo == "createSession" && strings.Contains(pred.Tokens[nSetup+i], "/closed") {
+				k.Steps[i].Expect = "createSession+closed" // the new session fails on its first segment
+			}
 		}
 	}
 	return c10Job{k: k, pred: pred, nSetup: nSetup}, true
@@ -873,7 +914,7 @@ func c10LEValid(s *c10Seg) bool {
 func init() {
 	core.Register("C10", &core.Scenario{
 		Run: func(c *core.Ctx) {
-			c.Res.Rule = "hostile-input language (harness/wire, valid credential): per case 1..5 arrivals against a real protocol.Mux endpoint hosted in a CHILD process — every protocol type 0..255 (wrong-direction and undefined included), session id 0 / random / own session / own second session / ANOTHER user's session, boundary and random seq / unAck / window / fragment / status, prefix / payload / suffix lengths consistent or not with the bytes that follow, session payloads around 1024, low-entropy mode / mask weight / rotation / extracted length valid and invalid, stale timestamps, a second credential, corrupted tags and padding bits, replays, unauthenticated garbage of every length 0..2000 — against a real SERVER (attacker = registered user bob, victim = alice) and a real CLIENT (the harness plays the server), on TCP and UDP. The Lean model Mieru.Dispatch predicts drop / closeSession / closeUnderlay / deliver / createSession per arrival; the child reports what the application and the wire saw (new session accepted, target closed, close-request reply, payload delivered, sender's other session and the OTHER USER's session still echo, connection up). Direct oracle: the child process survives and the other user's session keeps echoing. Plus SOCKS5 byte strings (random, every truncation, every ATYP, domain lengths 0/255) against Request/Response.ReadFromSocks5, ReadSocks5Request/Response, AddrSpec.ReadFromSocks5 (compared with Mieru.SocksReq), parseSocks5UDPDatagram, UDPAssociateWrapper.ReadFrom, PacketOverStreamTunnel.Read, the socks5 client's reply handling and TransceiveUDPPacket (each under recover). Distinct = distinct case JSON."
+			c.Res.Rule = "hostile-input language (harness/wire, valid credential): per case 1..5 arrivals against a real protocol.Mux endpoint hosted in a CHILD process — every protocol type 0..255 (wrong-direction and undefined included), session id 0 / random / own session / own second session / ANOTHER user's session, boundary and random seq (on TCP both the in-sequence number a session expects and out-of-sequence ones) / unAck / window / fragment / status, prefix / payload / suffix lengths consistent or not with the bytes that follow, session payloads around 1024, low-entropy mode / mask weight / rotation / extracted length valid and invalid, stale timestamps, a second credential, corrupted tags and padding bits, replays, unauthenticated garbage of every length 0..2000 — against a real SERVER (attacker = registered user bob, victim = alice) and a real CLIENT (the harness plays the server), on TCP and UDP. The Lean model Mieru.Dispatch predicts drop / closeSession / closeUnderlay / deliver / createSession per arrival; the child reports what the application and the wire saw (new session accepted, target closed, close-request reply, payload delivered, sender's other session and the OTHER USER's session still echo, connection up). Direct oracle: the child process survives and the other user's session keeps echoing. Plus SOCKS5 byte strings (random, every truncation, every ATYP, domain lengths 0/255) against Request/Response.ReadFromSocks5, ReadSocks5Request/Response, AddrSpec.ReadFromSocks5 (compared with Mieru.SocksReq), parseSocks5UDPDatagram, UDPAssociateWrapper.ReadFrom, PacketOverStreamTunnel.Read, the socks5 client's reply handling and TransceiveUDPPacket (each under recover). Distinct = distinct case JSON."
 			c.Correspondence("per-arrival outcome class of real endpoints (child process) = Mieru.Dispatch.udpStep / tcpStep on the same decoded fields; Request/Response/AddrSpec parsers = Mieru.SocksReq.parseMsg / parseMsg4 / SocksMsg.parseAddr")
 			corpusCases, others := c10LoadCorpus(c)
 			var jobs []c10Job
